@@ -5,7 +5,9 @@ import (
 	"fmt"
 	"math/big"
 	"sort"
+	"strconv"
 	"strings"
+	"sync"
 	"sync/atomic"
 )
 
@@ -42,6 +44,40 @@ var idCtr int64
 
 func nid() int64 { return atomic.AddInt64(&idCtr, 1) }
 
+// hash-consing: structurally equal terms are the same object (and have the same ID).
+var (
+	internMu  sync.Mutex
+	internTab = map[string]*Term{}
+)
+
+func intern(t *Term) *Term {
+	var sb strings.Builder
+	sb.WriteString(t.Op)
+	sb.WriteByte('|')
+	sb.WriteString(strconv.Itoa(int(t.S)))
+	sb.WriteByte('|')
+	sb.WriteString(strconv.FormatUint(t.C, 16))
+	sb.WriteByte('|')
+	sb.WriteString(t.Name)
+	sb.WriteByte('|')
+	sb.WriteString(strconv.Itoa(t.X))
+	sb.WriteByte(',')
+	sb.WriteString(strconv.Itoa(t.Y))
+	for _, a := range t.Args {
+		sb.WriteByte('|')
+		sb.WriteString(strconv.FormatInt(a.ID, 36))
+	}
+	k := sb.String()
+	internMu.Lock()
+	defer internMu.Unlock()
+	if o, ok := internTab[k]; ok {
+		return o
+	}
+	t.ID = nid()
+	internTab[k] = t
+	return t
+}
+
 func mask(w Sort) uint64 {
 	if w >= 64 {
 		return ^uint64(0)
@@ -69,8 +105,8 @@ func (t *Term) SVal() int64 {
 }
 
 var (
-	True  = &Term{ID: nid(), Op: "const", S: Bool, C: 1}
-	False = &Term{ID: nid(), Op: "const", S: Bool, C: 0}
+	True  = intern(&Term{Op: "const", S: Bool, C: 1})
+	False = intern(&Term{Op: "const", S: Bool, C: 0})
 )
 
 func BoolC(b bool) *Term {
@@ -81,20 +117,20 @@ func BoolC(b bool) *Term {
 }
 
 func BV(v uint64, w int) *Term {
-	return &Term{ID: nid(), Op: "const", S: Sort(w), C: v & mask(Sort(w))}
+	return intern(&Term{Op: "const", S: Sort(w), C: v & mask(Sort(w))})
 }
 func BVs(v int64, w int) *Term { return BV(uint64(v), w) }
-func IntC(v int64) *Term       { return &Term{ID: nid(), Op: "const", S: Int, C: uint64(v)} }
+func IntC(v int64) *Term       { return intern(&Term{Op: "const", S: Int, C: uint64(v)}) }
 
-func Var(name string, s Sort) *Term { return &Term{ID: nid(), Op: "var", S: s, Name: name} }
+func Var(name string, s Sort) *Term { return intern(&Term{Op: "var", S: s, Name: name}) }
 
 // UF application; fn declared by the solver layer from Name + arg sorts.
 func App(fn string, ret Sort, args ...*Term) *Term {
-	return &Term{ID: nid(), Op: "app", Name: fn, S: ret, Args: args}
+	return intern(&Term{Op: "app", Name: fn, S: ret, Args: args})
 }
 
 func mk(op string, s Sort, args ...*Term) *Term {
-	return &Term{ID: nid(), Op: op, S: s, Args: args}
+	return intern(&Term{Op: op, S: s, Args: args})
 }
 
 func Same(a, b *Term) bool {
@@ -458,9 +494,7 @@ func Extract(hi, lo int, a *Term) *Term {
 	if lo == 0 && (a.Op == "zext" || a.Op == "sext") && int(a.Args[0].S) == w {
 		return a.Args[0]
 	}
-	t := mk("extract", Sort(w), a)
-	t.X, t.Y = hi, lo
-	return t
+	return intern(&Term{Op: "extract", S: Sort(w), Args: []*Term{a}, X: hi, Y: lo})
 }
 
 func ZExt(a *Term, to int) *Term {
@@ -473,9 +507,7 @@ func ZExt(a *Term, to int) *Term {
 	if a.IsConst() {
 		return BV(a.C, to)
 	}
-	t := mk("zext", Sort(to), a)
-	t.X = to - int(a.S)
-	return t
+	return intern(&Term{Op: "zext", S: Sort(to), Args: []*Term{a}, X: to - int(a.S)})
 }
 
 func SExt(a *Term, to int) *Term {
@@ -488,9 +520,7 @@ func SExt(a *Term, to int) *Term {
 	if a.IsConst() {
 		return BVs(a.SVal(), to)
 	}
-	t := mk("sext", Sort(to), a)
-	t.X = to - int(a.S)
-	return t
+	return intern(&Term{Op: "sext", S: Sort(to), Args: []*Term{a}, X: to - int(a.S)})
 }
 
 func Distinct(as ...*Term) *Term {
